@@ -53,6 +53,7 @@ type Stats struct {
 	Steps       int            `json:"steps"`
 	Stuck       int            `json:"stuck_terminals"`
 	Infra       []string       `json:"infra,omitempty"`
+	Abandoned   []string       `json:"abandoned,omitempty"`
 	Distinct    int            `json:"distinct_schedules"`
 	Nontrivial  int            `json:"nontrivial"`
 	Points      map[string]int `json:"points,omitempty"`
